@@ -32,7 +32,9 @@ LEVEL_TEXT = (
     "(source - Ada(quantity) - fees) lowers through lowerE at every fuel from a bound on, and with the arguments, the "
     "assigned inputs and the fee applied reduces to a constant denoting, class by class, integer arithmetic on the "
     "constructors' amounts, the fee and the totals of the assigned UTxOs (C01_source_to_value, input_lowers, "
-    "lower_int_inert; the example program satisfies every hypothesis). Per generated program (two layouts of the same tree) the real parse, analyze, lower, "
+    "lower_int_inert; the example program satisfies every hypothesis); (8) an index selects the element at exactly "
+    "that position or is an error - never the element a multiple of 2^64 away (C01_list_index_exact, "
+    "C01_struct_index_exact, C01_index_out_of_range; the defect repaired by 874eff9). Per generated program (two layouts of the same tree) the real parse, analyze, lower, "
     "resolve_tx (apply, reduce, input selection, compile) is run; the lowered IR must equal the model's, and the "
     "transaction bytes, decoded by the Lean Conway reader, must hold exactly the inputs, outputs (address, lovelace, "
     "native assets, inline datum, in source order), mint, validity interval, signers, reference inputs, metadata "
@@ -47,7 +49,7 @@ LEVEL_NOTE = (
     "shadowing between scopes is not exercised."
 )
 PROP = "C01"
-TARGETS = ["Tx3Proofs.C01", "Tx3Proofs.C01Assets", "Tx3Proofs.C01Lovelace", "Tx3Proofs.C01MultiAsset", "Tx3Proofs.C01Template", "Tx3Proofs.C01Spec", "Tx3Proofs.C01Change"]
+TARGETS = ["Tx3Proofs.C01", "Tx3Proofs.C01Assets", "Tx3Proofs.C01Lovelace", "Tx3Proofs.C01MultiAsset", "Tx3Proofs.C01Template", "Tx3Proofs.C01Spec", "Tx3Proofs.C01Change", "Tx3Proofs.C01Index"]
 THEOREMS = ["Tx3.Lang.eval_int", "Tx3.Lang.lower_int", "Tx3.Lang.C01_int_fragment", "Tx3.Lang.C01_sub_chain",
             "Tx3.Lang.C01_sub_chain_distinct",
             "Tx3.assetsOfChildren_amt", "Tx3.reread_canonical", "Tx3.C01_assets_add", "Tx3.C01_assets_neg",
@@ -57,7 +59,8 @@ THEOREMS = ["Tx3.Lang.eval_int", "Tx3.Lang.lower_int", "Tx3.Lang.C01_int_fragmen
             "Tx3.sumUtxo_spec", "Tx3.C01_template_value",
             "Tx3.Lang.eval_lovelace", "Tx3.Lang.C01_spec_meets_pipeline",
             "Tx3.Lang.lower_int_inert", "Tx3.Lang.denotes_add", "Tx3.Lang.denotes_sub", "Tx3.Lang.lowerInput_shape",
-            "Tx3.Lang.input_lowers", "Tx3.Lang.C01_source_to_value", "Tx3.Lang.full_pipeline_order"]
+            "Tx3.Lang.input_lowers", "Tx3.Lang.C01_source_to_value", "Tx3.Lang.full_pipeline_order",
+            "Tx3.nth?_spec", "Tx3.C01_list_index_exact", "Tx3.C01_struct_index_exact", "Tx3.C01_index_out_of_range"]
 RULE = (
     "cases = generated programs over the core fragment: env (Int, Bytes), 2-3 parties, a policy, an asset, a record "
     "and a variant type; one transaction with 1-3 positive Int parameters, optionally an unconstrained Int, a Bytes "
